@@ -212,8 +212,12 @@ private:
     {
         byte_vector_t row( this->_info._width * (this->_info._bits_per_pixel / 8) );
 
-        // jump to first scanline
-        this->_io_dev.seek( static_cast< long >( this->_info._offset ));
+        // jump to the first stored scanline of the requested region: rows are stored bottom-up unless the
+        // screen origin bit is set (the caller then passes the destination flipped)
+        std::ptrdiff_t const skipped_rows = this->_info._screen_origin_bit
+            ? this->_settings._top_left.y
+            : this->_info._height - this->_settings._top_left.y - this->_settings._dim.y;
+        this->_io_dev.seek( static_cast< long >( this->_info._offset + skipped_rows * row.size() ));
 
         View_Src v = interleaved_view( this->_info._width,
                                        1,
@@ -281,9 +285,14 @@ private:
                                                              reinterpret_cast<typename View_Src::value_type*>( &image_data.front() ),
                                                              this->_info._width * num_channels< View_Src >::value ) );
 
+        // v is the whole image top-down for a bottom-left origin; with the screen origin bit set it is bottom-up
+        // and the caller passes the destination flipped
+        std::ptrdiff_t const first_row = this->_info._screen_origin_bit
+            ? this->_info._height - this->_settings._top_left.y - this->_settings._dim.y
+            : this->_settings._top_left.y;
         for( std::ptrdiff_t y = 0; y != this->_settings._dim.y; ++y )
         {
-            typename View_Src::x_iterator beg = v.row_begin( y ) + this->_settings._top_left.x;
+            typename View_Src::x_iterator beg = v.row_begin( first_row + y ) + this->_settings._top_left.x;
             typename View_Src::x_iterator end = beg + this->_settings._dim.x;
             this->_cc_policy.read( beg, end, view.row_begin(y) );
         }
